@@ -167,7 +167,7 @@ package bindnode
 //@   nosafety
 //@   requires typ != nil
 //@   assigns[C20] nothing
-//@   ensures[C09] (exists j mathint :: 0 <= j && j < len(typ.fields) && repkey(stg, typ.fields[j]) == key) || (forall j mathint :: 0 <= j && j < len(typ.fields) ==> typ.fields[j].name != r)
+//@   ensures[C09,C12] (exists j mathint :: 0 <= j && j < len(typ.fields) && repkey(stg, typ.fields[j]) == key) || (forall j mathint :: 0 <= j && j < len(typ.fields) ==> typ.fields[j].name != r)
 //@   loop 0 invariant 0 - 1 <= rangeindex && rangeindex < len(fields) && fields == typ.fields
 //@   loop 0 invariant forall j mathint :: 0 <= j && j <= rangeindex ==> repkey(stg, fields[j]) != key
 
